@@ -37,3 +37,46 @@ pub fn probe_std_order_holds(a: i32, b: i32, c: u32, d: u32) {
     assert!((0..24).contains(&a) == (a >= 0 && a < 24) && (1..=12).contains(&c) == (c >= 1 && c <= 12));
     assert!((0..5u8).all(|x| (x as i32) < a) == (a > 4) && (0..5u8).any(|x| x as i32 == a) == (a >= 0 && a < 5));
 }
+
+/// Vec with pushes under symbolic control flow: len, index, last, iter().rev()
+pub fn probe_vec_holds(a: u32, b: u32, n: u8) {
+    let mut v: Vec<u32> = Vec::new();
+    if a > 5 { v.push(a); }
+    v.push(b);
+    if n > 3 { v.push(7); }
+    let l = v.len();
+    assert!(l == 1 + (a > 5) as usize + (n > 3) as usize);
+    assert!(*v.last().unwrap() == if n > 3 { 7 } else { b });
+    assert!(v[0] == if a > 5 { a } else { b });
+    let mut found = 0u32;
+    for x in v.iter().rev() { if *x == b { found = 1; break; } }
+    assert!(found == 1);
+}
+/// Range::step_by(7).collect()
+pub fn probe_step_by_holds(first: u32, days: u32) {
+    assume(1 <= first); assume(first <= 7); assume(26 <= days); assume(days <= 31);
+    let v: Vec<u32> = (first..days).step_by(7).collect();
+    assert!(v.len() as u32 == (days - first - 1) / 7 + 1);
+    if v.len() > 3 { assert!(v[3] == first + 21); }
+    assert!(v[0] == first);
+}
+/// from_utf8 / trim_matches / parse::<u32> / starts_with on bounded bytes against a hand-written digit loop
+pub fn probe_parse_trim_holds(b: &[u8]) {
+    if let Ok(s) = std::str::from_utf8(b) {
+        let t = s.trim_matches(|c: char| c.is_ascii_whitespace());
+        let tb = t.as_bytes();
+        let mut i = 0usize; let mut ok = tb.len() > 0; let mut val: u64 = 0;
+        if ok && tb[0] == b'+' { i = 1; ok = tb.len() > 1; }
+        while i < tb.len() {
+            if tb[i] >= b'0' && tb[i] <= b'9' { val = val * 10 + (tb[i] - b'0') as u64; } else { ok = false; }
+            i += 1;
+        }
+        if val > u32::MAX as u64 { ok = false; }
+        match t.parse::<u32>() {
+            Ok(n) => assert!(ok && n as u64 == val),
+            Err(_) => assert!(!ok),
+        }
+        assert!(t.starts_with('+') == (tb.len() > 0 && tb[0] == b'+'));
+        assert!(tb.len() == 0 || !(tb[0] == b' ' || tb[0] == b'\n' || tb[0] == b'\t'));
+    }
+}
